@@ -492,7 +492,16 @@ def generate(template_path):
             continue
         out.append(ln + '\n')
         i += 1
-    return ''.join(out), report
+    text = ''.join(out)
+    # (Verus does not allow invariant_except_break / loop ensures without isolation: units that use them keep the default)
+    loop_clauses = re.findall(r'^//@loop[^\n]*\n((?:(?!//@)[^\n]*\n)*)', '\n'.join(tl) + '\n', flags=re.M)
+    complex_inv = any(re.search(r'\b(ensures|invariant_except_break)\b', c) for c in loop_clauses)
+    if '//@loop-isolation on' not in text and not complex_inv:
+        # every loop sees the facts of its enclosing context about variables it does not modify (Verus' default isolates
+        # loops): a harmless edit that hoists `x.len()` into a local before a loop then still verifies
+        text = '#![verifier::loop_isolation(false)]\n' + text
+        report['loop_isolation'] = False
+    return text, report
 
 
 # ---------------------------------------------------------------- vacuity twins
